@@ -98,6 +98,9 @@ type vexpr struct {
 	Iface   string // non-empty: wire.InterfaceValue(new(Iface), Expr)
 	Local   bool   // must live in the injector package (mentions unexported names)
 	Param   string // injector parameter list (for the not-package-scope case)
+	// DotInternal: the home package dot-imports <home>/internal/x (type T), which the injector's
+	// package may import only if it is the home package itself
+	DotInternal bool
 }
 
 func c13Atoms() map[string][]vexpr {
@@ -297,6 +300,10 @@ func c13Exprs(e *Env) []vexpr {
 		vexpr{Expr: "@hiddenT{X: 1}", Type: "@hiddenT", Class: "reject-cross", Why: "unexported type", Kind: "unexported-type", Local: true},
 		vexpr{Expr: "@S{hid: 1}", Type: "@S", Class: "reject-cross", Why: "unexported field key", Kind: "unexported-field"},
 		vexpr{Expr: "@VS.hid", Type: "int", Class: "reject-cross", Why: "unexported field selector", Kind: "unexported-selector"},
+		// a dot-imported type of an internal package, mentioned as an embedded field (the identifier
+		// then stands for the field and for the type)
+		vexpr{Expr: "struct{ T }{}", Type: "interface{}", Iface: "interface{}", Class: "reject-cross", Why: "embedded field naming a dot-imported type of an internal package", Kind: "embedded-dot-imported-internal-type", DotInternal: true},
+		vexpr{Expr: "[]T{{N: 1}}", Type: "interface{}", Iface: "interface{}", Class: "reject-cross", Why: "dot-imported type of an internal package", Kind: "dot-imported-internal-type", DotInternal: true},
 		// a literal without keys assigns the unexported fields too: legal only where they are visible
 		vexpr{Expr: "@UPos{1, 2}", Type: "@UPos", Class: "reject-cross", Why: "positional literal of a struct with an unexported field", Kind: "unexported-field-positional"},
 		vexpr{Expr: "&@UPos{1, 2}", Type: "*@UPos", Class: "reject-cross", Why: "positional literal of a struct with an unexported field", Kind: "unexported-field-positional", PtrLike: true},
@@ -363,10 +370,23 @@ func c13Program(id string, cases []c13Case) *Program {
 		return strings.ReplaceAll(s, "@", "lib.")
 	}
 	p.Extra[fmt.Sprintf("%d/prelude.go", homeIdx)] = fmt.Sprintf(c13Prelude, home, ModulePath)
+	dotImp, dotUse := "", ""
+	for _, c := range cases {
+		if c.V.DotInternal {
+			p.Pkgs = append(p.Pkgs, &Pkg{Name: "x", Dir: p.Pkgs[homeIdx].Dir + "/internal/x"})
+			p.Extra[fmt.Sprintf("%d/x.go", len(p.Pkgs)-1)] = "package x\n\ntype T struct{ N int }\n"
+			dotImp = "\t. \"" + p.ImportPath(len(p.Pkgs)-1) + "\"\n"
+			dotUse = "var _ T\n\n"
+			break
+		}
+	}
 	var homeSrc, sets, injs, drv strings.Builder
-	fmt.Fprintf(&homeSrc, "package %s\n\nimport \"%s/tr\"\n\nvar _ = tr.New\n\n", home, ModulePath)
-	fmt.Fprintf(&sets, "package %s\n\nimport \"github.com/google/wire\"\n\nvar _ = wire.NewSet\n\n", home)
+	fmt.Fprintf(&homeSrc, "package %s\n\nimport (\n\t\"%s/tr\"\n%s)\n\nvar _ = tr.New\n\n%s", home, ModulePath, dotImp, dotUse)
+	fmt.Fprintf(&sets, "package %s\n\nimport (\n\t\"github.com/google/wire\"\n%s)\n\nvar _ = wire.NewSet\n\n%s", home, dotImp, dotUse)
 	injs.WriteString("//go:build wireinject\n// +build wireinject\n\npackage app\n\nimport (\n\t\"github.com/google/wire\"\n")
+	if !cross {
+		injs.WriteString(dotImp)
+	}
 	drv.WriteString("//go:build !wireinject\n// +build !wireinject\n\npackage app\n\nimport (\n\t\"" + ModulePath + "/tr\"\n")
 	if cross {
 		injs.WriteString("\t\"" + p.ImportPath(1) + "\"\n")
@@ -374,6 +394,9 @@ func c13Program(id string, cases []c13Case) *Program {
 		drv.WriteString("\t_ \"" + p.ImportPath(1) + "\"\n")
 	}
 	injs.WriteString(")\n\nvar _ = wire.NewSet\n\n")
+	if !cross {
+		injs.WriteString(dotUse)
+	}
 	drv.WriteString(")\n\nvar _ = tr.New\n\nfunc Scenarios() {\n")
 	usesLibInInj := false
 	for _, c := range cases {
